@@ -28,6 +28,8 @@ var (
 	rng         *rand.Rand
 	thorough    bool
 	strictAfter bool
+	only        string
+	verbose     bool
 )
 
 func main() {
@@ -40,6 +42,8 @@ func main() {
 	flag.BoolVar(&thorough, "thorough", false, "all cuts for longer wires, all close codes, MiB sizes")
 	flag.BoolVar(&strictAfter, "strict-after-fail", false,
 		"also report data delivered after the endpoint failed/closed the connection within the same read (RFC 6455 7.1.7)")
+	flag.StringVar(&only, "only", "", "part 13/15: run only the systematic cases whose class starts with this prefix (debugging, replay)")
+	flag.BoolVar(&verbose, "v", false, "print every case of -only runs")
 	flag.Parse()
 	logging.SetLevel(logging.LevelNone)
 	if *gen != "" {
@@ -71,6 +75,7 @@ func main() {
 			hx.Fatal("unknown part %q", p)
 		}
 	}
+	dumpModelTime()
 	rep.Write(*out)
 }
 
